@@ -1296,7 +1296,7 @@ func runC17(c *Ctx) {
 	r.Rule = "types: generated MRO source (2 filetypes, 5 fixed + N random/derived structs; arrays up to 3 dims, typed maps of arrays, arrays of maps, structs of structs) compiled by the real compiler; values: type-directed valid JSON, one or two near-miss mutations at random positions (number-as-string, float-for-int, deeper/shallower nesting, missing/extra member, illegal map key, null, other value, out-of-range int, object/array swap), values valid for an assignable source type; rendered compact or with random whitespace and string escapes. Each case: real IsValidJson/FilterJson (+ second FilterJson, + IsValidJson of the result) vs Lean check/filter (verdict enums, output trees with sorted members); monitors on the real code: idempotence, only-drops, null accepted, filter-valid-of-assignable; assignability: full builtin x user table and all ordered pairs of a universe's types vs Lean, reflexivity, array/map/struct component rules. non-trivial = filter output differs from its input, or validation is not clean although the root has the declared container shape; distinct = distinct (type, JSON text)"
 	nUniverses, perUniverse := 16, 5000
 	if c.Thorough {
-		nUniverses, perUniverse = 125, 14000
+		nUniverses, perUniverse = 100, 14000
 	}
 
 	// ---- corpus: lines `<mro type>\t<json text>` evaluated in the fixed universe ----
